@@ -53,6 +53,7 @@ fn render(d: &Value) -> String {
                 .iter()
                 .map(|f| match &f[1] {
                     Value::Null => f[0].as_str().unwrap_or("").to_string(),
+                    Value::String(v) => format!("{}={}", f[0].as_str().unwrap_or(""), v),
                     v => format!("{}={}", f[0].as_str().unwrap_or(""), v),
                 })
                 .collect();
@@ -98,6 +99,7 @@ struct H {
     fsite: usize,
     x: i64,
     flag: bool,
+    who: String,
     y: i64,
     slot: usize,
     enabled_handle: bool,
@@ -167,7 +169,12 @@ fn exec_step(rep: usize, gi: usize, t: usize, s: &Value, slots: &Mutex<Vec<Optio
                     h.fsite = s["fsite"].as_u64().unwrap_or(0) as usize % fsites::N;
                     h.x = s["x"].as_i64().unwrap_or(0);
                     h.flag = s["flag"].as_bool().unwrap_or(false);
-                    fsites::make(h.fsite, h.x, h.flag, uid)
+                    h.who = s["who"].as_str().unwrap_or("alice").to_string();
+                    let who = match h.who.as_str() {
+                        "bob" => fsites::Who::Name("bob"),
+                        _ => fsites::Who::Name("alice"),
+                    };
+                    fsites::make(h.fsite, h.x, h.flag, uid, &who)
                 } else {
                     h.site = s["site"].as_u64().unwrap_or(0) as usize % sites::N;
                     sites::make_span(h.site, uid)
@@ -176,6 +183,15 @@ fn exec_step(rep: usize, gi: usize, t: usize, s: &Value, slots: &Mutex<Vec<Optio
                 h.enabled_handle = !sp.is_disabled();
                 slots.lock().unwrap()[slot] = Some(SlotE { span: sp, uid });
             }
+        }
+        "fspan_boom" => {
+            // fault: a span whose `who` field panics in its Debug impl - which runs only if a directive's pattern
+            // matcher looks at that field; the panic is caught here and no span is kept either way
+            fault("panic_in_span_field_debug");
+            let fsite = s["fsite"].as_u64().unwrap_or(0) as usize % fsites::N;
+            let r = std::panic::catch_unwind(|| drop(fsites::make(fsite, 0, false, uid, &fsites::Who::Boom)));
+            h.applied = false;
+            let _ = r;
         }
         "enter" => {
             let e = slots.lock().unwrap()[slot].take();
@@ -263,9 +279,10 @@ fn gen_directive(rng: &mut Rng, dynamic_ok: bool) -> Value {
         let span = if rng.chance(3, 4) { json!(*rng.pick(&["alpha", "beta"])) } else { Value::Null };
         let mut fields: Vec<Value> = vec![];
         if span.is_null() || rng.chance(1, 2) {
-            match rng.below(3) {
+            match rng.below(4) {
                 0 => fields.push(json!(["x", rng.below(3) as i64])),
                 1 => fields.push(json!(["flag", rng.chance(1, 2)])),
+                2 => fields.push(json!(["who", *rng.pick(&["alice", "bob"])])),
                 _ => fields.push(json!(["y", rng.below(3) as i64])),
             }
             // (one field per directive: the directive list is split on ',' before field lists are parsed)
@@ -300,7 +317,7 @@ impl Engine for DirectiveEngine {
         m
     }
     fn rule(&self, _p: &str) -> String {
-        "per run: <=8 directives from the documented grammar (shared target prefixes, duplicates and conflicts in any order, bare level / bare target, level names in any case or as digits, span names, field value matchers for int/bool) and a well-nested enter/exit/record history over named spans with typed fields, pool spans and pool events on 1-2 threads, executed under four replica collectors (Targets, EnvFilter, EnvFilter re-parsed from Display, EnvFilter as per-layer filter); a quarter of the runs with span-scoped directives instead race two threads (each with its own spans) on one EnvFilter under seeded schedules, contending its callsite/span matcher tables and first hits of shared callsites; non-trivial = at least one emission enabled only by a span-scoped directive and one suppressed after the span was exited, or (static sets) at least one emission decided by a longest-prefix tie-break; distinct = distinct plan digest".into()
+        "per run: <=8 directives from the documented grammar (shared target prefixes, duplicates and conflicts in any order, bare level / bare target, level names in any case or as digits, span names, field value matchers for int/bool and a pattern matcher on a Debug-valued field; fault: that field's Debug impl panics, caught) and a well-nested enter/exit/record history over named spans with typed fields, pool spans and pool events on 1-2 threads, executed under four replica collectors (Targets, EnvFilter, EnvFilter re-parsed from Display, EnvFilter as per-layer filter); a quarter of the runs with span-scoped directives instead race two threads (each with its own spans) on one EnvFilter under seeded schedules, contending its callsite/span matcher tables and first hits of shared callsites; non-trivial = at least one emission enabled only by a span-scoped directive and one suppressed after the span was exited, or (static sets) at least one emission decided by a longest-prefix tie-break; distinct = distinct plan digest".into()
     }
     fn components(&self) -> Value {
         json!({"real": ["tracing_subscriber::filter::Targets (FromStr, would_enable, Subscribe)", "EnvFilter (Builder::parse, Display, Subscribe and Filter impls, by_cs/by_id/scope)", "Registry, Filtered", "tracing macros"], "stub": ["recording layer"]})
@@ -319,7 +336,8 @@ impl Engine for DirectiveEngine {
             let t = rng.below(nthreads);
             let slot = rng.below(NSLOTS as u64);
             steps.push(match rng.below(100) {
-                0..=17 => json!({"t": t, "op": "fspan", "slot": slot, "fsite": rng.below(fsites::N as u64), "x": rng.below(3) as i64, "flag": rng.chance(1, 2)}),
+                0..=17 => json!({"t": t, "op": "fspan", "slot": slot, "fsite": rng.below(fsites::N as u64), "x": rng.below(3) as i64, "flag": rng.chance(1, 2), "who": *rng.pick(&["alice", "alice", "bob"])}),
+                18..=20 if dynamic_ok => json!({"t": t, "op": "fspan_boom", "fsite": rng.below(fsites::N as u64)}),
                 18..=24 => json!({"t": t, "op": "span", "slot": slot, "site": rng.below(20)}),
                 25..=41 => {
                     if gen_stack[t as usize].contains(&slot) || gen_stack.iter().any(|v| v.contains(&slot)) {
@@ -364,9 +382,9 @@ impl Engine for DirectiveEngine {
                 dirs.push(gen_directive(&mut rng, false));
             }
             let mut st = vec![
-                json!({"t": 0, "op": "fspan", "slot": 0, "fsite": *rng.pick(&[0u64, 2, 4]), "x": rng.below(3) as i64, "flag": rng.chance(1, 2)}),
+                json!({"t": 0, "op": "fspan", "slot": 0, "fsite": *rng.pick(&[0u64, 2, 4]), "x": rng.below(3) as i64, "flag": rng.chance(1, 2), "who": *rng.pick(&["alice", "alice", "bob"])}),
                 json!({"t": 0, "op": "enter", "slot": 0}),
-                json!({"t": 0, "op": "fspan", "slot": 1, "fsite": *rng.pick(&[1u64, 3, 5]), "x": rng.below(3) as i64, "flag": rng.chance(1, 2)}),
+                json!({"t": 0, "op": "fspan", "slot": 1, "fsite": *rng.pick(&[1u64, 3, 5]), "x": rng.below(3) as i64, "flag": rng.chance(1, 2), "who": *rng.pick(&["alice", "alice", "bob"])}),
                 json!({"t": 0, "op": "enter", "slot": 1}),
                 json!({"t": 0, "op": "record_y", "slot": 1, "y": if rng.chance(3, 4) { k } else { (k + 1) % 3 }}),
             ];
@@ -391,7 +409,7 @@ impl Engine for DirectiveEngine {
             if rng.chance(2, 3) {
                 let f0 = rng.below(fsites::N as u64);
                 for t in 0..2u64 {
-                    st.push(json!({"t": t, "op": "fspan", "slot": t, "fsite": f0, "x": rng.below(3) as i64, "flag": rng.chance(1, 2)}));
+                    st.push(json!({"t": t, "op": "fspan", "slot": t, "fsite": f0, "x": rng.below(3) as i64, "flag": rng.chance(1, 2), "who": *rng.pick(&["alice", "alice", "bob"])}));
                     st.push(json!({"t": t, "op": "enter", "slot": t}));
                     stack[t as usize].push(t);
                     st.push(json!({"t": t, "op": "event", "site": rng.below(20)}));
@@ -402,7 +420,7 @@ impl Engine for DirectiveEngine {
                 let own: Vec<u64> = (0..NSLOTS as u64).filter(|s| s % 2 == t).collect();
                 let slot = *rng.pick(&own);
                 st.push(match rng.below(100) {
-                    0..=29 => json!({"t": t, "op": "fspan", "slot": slot, "fsite": rng.below(fsites::N as u64), "x": rng.below(3) as i64, "flag": rng.chance(1, 2)}),
+                    0..=29 => json!({"t": t, "op": "fspan", "slot": slot, "fsite": rng.below(fsites::N as u64), "x": rng.below(3) as i64, "flag": rng.chance(1, 2), "who": *rng.pick(&["alice", "alice", "bob"])}),
                     30..=49 => {
                         if stack[t as usize].contains(&slot) {
                             json!({"t": t, "op": "event", "site": rng.below(20)})
@@ -443,6 +461,7 @@ impl Engine for DirectiveEngine {
     }
 
     fn execute(&self, plan: &Value) -> RunResult {
+        std::panic::set_hook(Box::new(|_| {}));
         let sched = plan_sched(plan);
         let dirs: Vec<Value> = plan["cfg"]["dirs"].as_array().cloned().unwrap_or_default();
         let nthreads = plan["cfg"]["threads"].as_u64().unwrap_or(1).max(1) as usize;
@@ -634,6 +653,7 @@ struct MSpan {
     fsite: Option<usize>,
     x: i64,
     flag: bool,
+    who: String,
     /// every value recorded for `y` so far (a value matcher that matched once stays matched)
     y: Vec<i64>,
     exists: bool,
@@ -667,7 +687,7 @@ fn cares(d: &Value, sp: &MSpan) -> bool {
         }
     }
     // every field the directive names must exist on the span's callsite
-    d["fields"].as_array().map_or(true, |a| a.iter().all(|f| matches!(f[0].as_str(), Some("x") | Some("flag") | Some("y") | Some("val"))))
+    d["fields"].as_array().map_or(true, |a| a.iter().all(|f| matches!(f[0].as_str(), Some("x") | Some("flag") | Some("y") | Some("val") | Some("who"))))
 }
 fn values_match(d: &Value, sp: &MSpan) -> bool {
     d["fields"].as_array().map_or(true, |a| {
@@ -675,6 +695,8 @@ fn values_match(d: &Value, sp: &MSpan) -> bool {
             (_, Value::Null) => true,
             (Some("x"), v) => v.as_i64() == Some(sp.x),
             (Some("flag"), v) => v.as_bool() == Some(sp.flag),
+            // (a pattern matcher: the Debug output of the field must match it entirely)
+            (Some("who"), v) => v.as_str() == Some(sp.who.as_str()),
             (Some("y"), v) => v.as_i64().map_or(false, |w| sp.y.contains(&w)),
             (Some("val"), _) | (Some("site"), _) => false,
             _ => false,
@@ -753,7 +775,7 @@ fn oracle(dirs: &[Value], text: &str, hist: &[H], log: &[LRec]) {
                 if h.op == "span" {
                     // a span whose callsite a span-scoped directive cares about is enabled "for the span itself";
                     // when its level exceeds that directive's level the outcome is not judged
-                    let me = MSpan { site: h.site, fsite: None, x: 0, flag: false, y: vec![], exists: true };
+                    let me = MSpan { site: h.site, fsite: None, x: 0, flag: false, who: String::new(), y: vec![], exists: true };
                     let caring: Vec<&&Value> = dynamics.iter().filter(|d| cares(d, &me)).collect();
                     if caring.iter().any(|d| values_match(d, &me) && (lvl as u64) <= dir_level(d)) {
                         want = true;
@@ -777,13 +799,13 @@ fn oracle(dirs: &[Value], text: &str, hist: &[H], log: &[LRec]) {
                     tie_break = true;
                 }
                 if h.op == "span" && got {
-                    spans.insert(h.uid, MSpan { site: h.site, fsite: None, x: 0, flag: false, y: vec![], exists: true });
+                    spans.insert(h.uid, MSpan { site: h.site, fsite: None, x: 0, flag: false, who: String::new(), y: vec![], exists: true });
                 }
             }
             "fspan" => {
                 let (ti, _) = fsites::SITES[h.fsite];
-                let sp = MSpan { site: 0, fsite: Some(h.fsite), x: h.x, flag: h.flag, y: vec![], exists: true };
-                let (st, _, amb) = static_enabled(dirs, 3, fsites::TARGETS[ti as usize], false, &["x", "flag", "y", "val"]);
+                let sp = MSpan { site: 0, fsite: Some(h.fsite), x: h.x, flag: h.flag, who: h.who.clone(), y: vec![], exists: true };
+                let (st, _, amb) = static_enabled(dirs, 3, fsites::TARGETS[ti as usize], false, &["x", "flag", "y", "val", "who"]);
                 let raised = scope_raise(h.t, &spans, &stacks) >= 3;
                 let frozen = frozen_raise(h.t, &stacks, &raise_at_enter) >= 3;
                 let cared = dynamics.iter().any(|d| cares(d, &sp));
